@@ -295,8 +295,12 @@ class ApiGen:
             return None
         buf = bytes.fromhex(o.kv('buf'))
         f = self.slots[k]
-        exp = spec.storage(list(f['secret'][:19]), f['b'], f['f'], f['chk'])
-        if buf != exp:
+        try:
+            exp = spec.storage(list(f['secret'][:19]), f['b'], f['f'], f['chk'])
+        except (ValueError, OverflowError):
+            # the seed holds field values no published image can carry (reported as non-canonical where it was handed out)
+            exp = None
+        if exp is not None and buf != exp:
             self.report('C06', 'store-bytes', 'store gives %s, the published format of this seed is %s' % (buf.hex(), exp.hex()))
         return buf
 
@@ -776,7 +780,7 @@ class ApiGen:
         p = self.seed_poly(k, coin)
         toks = self.tokens(li, p)
         Lg = self.L.langs[li]
-        kind = r.choice(['short', 'extend', 'extra', 'missing', 'empty', 'lead', 'double', 'trail2'])
+        kind = r.choice(['short', 'extend', 'extend-dup', 'extend-dup', 'extra', 'missing', 'empty', 'lead', 'double', 'trail2'])
         t2 = list(toks)
         exp = None
         i = r.randrange(16)
@@ -795,6 +799,31 @@ class ApiGen:
             if self.accepted_for(li, t2[i]):
                 return
             exp = ('2',)
+        elif kind == 'extend-dup':
+            # a token that continues its NEIGHBOUR (in full or abbreviated) with letters no word has: relations between adjacent
+            # tokens must not matter
+            i = r.randrange(1, 16)
+            nb = t2[i - 1] if r.random() < 0.6 else t2[(i + 1) % 16]
+            chars = nb.decode('utf-8')
+            base = [j for j, c in enumerate(chars) if not unicodedata.combining(c)]
+            stem = nb
+            if Lg['prefix'] and len(base) > 4 and r.random() < 0.5:
+                stem = chars[:base[4]].encode()
+            t2[i] = stem + r.choice([b'zz', b'xq', b'zzzz', 'é'.encode() + b'zq'])
+            if self.accepted_for(li, t2[i]):
+                return
+            exp = ('2',)
+            s = self.render(li, t2)
+            for lang in (li, None):
+                o, k2 = self.decode(coin, s, lang)
+                if o is None:
+                    return
+                if o.kv('st') not in exp:
+                    self.report('C08', 'bad-token-' + kind, 'lang %d: phrase with a token that continues its neighbour with letters no word has returned status %s (%s decoding), expected the language error: %r' % (
+                        li, o.kv('st'), 'explicit' if lang is not None else 'automatic', s.decode('utf-8', 'replace')))
+                if k2 is not None:
+                    self.free(k2)
+            return
         elif kind == 'extra':
             t2.append(r.choice(toks))
             exp = ('1',)
@@ -977,6 +1006,65 @@ class ApiGen:
         o = self.op('free null')
         if o is not None and o.events:
             self.report('C15', 'free-null', 'freeing NULL called dependencies: %s' % o.events)
+        self.probe_stale(buf)
+
+    def probe_stale(self, buf):
+        """C15: the caller's seed variable still holds the address of a seed it freed, and the allocator hands that very
+        block out again (as malloc does): failing calls must still return what they took"""
+        r = self.rnd
+        self.s.directive('!reuse 1')
+        try:
+            kk = self.free_slot()
+            o = self.op('load %d %s' % (kk, buf.hex()))
+            if o is None or o.head == 'skip' or o.kv('st') != '0':
+                return
+            self.slots[kk] = dict(b=0, f=0, secret=bytes(32), chk=0, block=o.kv('seed'))
+            self.dump(kk)
+            self.free(kk)
+            bad = bytearray(buf)
+            kind = r.choice(['chk', 'fmt', 'unsup'])
+            if kind == 'chk':
+                bad[30] ^= 1
+            elif kind == 'fmt':
+                bad[29] ^= 0x10
+            else:
+                bad[9] = (bad[9] & 3) | ((~(self.mask << 2)) & 0x1C & 0x7C) or bad[9]
+            for _ in range(2):
+                o2 = self.op('load %d %s' % (kk, bytes(bad).hex()))
+                if o2 is None or o2.head == 'skip':
+                    return
+                if o2.kv('st') == '0':
+                    self.slots[kk] = dict(b=0, f=0, secret=bytes(32), chk=0, block=o2.kv('seed'))
+                    self.dump(kk)
+                    self.free(kk)
+                    continue
+                a = [e for e in o2.events if e.startswith('E alloc') and 'ret=b' in e]
+                fr = [e for e in o2.events if e.startswith('E free')]
+                if len(a) != len(fr):
+                    self.report('C15', 'load-leak', 'a failing load (status %s) into a variable that still held the address of a freed seed allocated %d block(s) and freed %d' % (o2.kv('st'), len(a), len(fr)))
+            # the decoders, the same way: a phrase for the wrong coin
+            if self.slots:
+                ks = r.choice(list(self.slots))
+                li, coin = r.randrange(self.nl), r.randrange(2048)
+                ph = self.encode(ks, li, coin)
+                if ph is not None:
+                    for lang in (li, None):
+                        for c2 in (coin, (coin + 1) % 2048):
+                            op = ('decodex %d %d %d %s' % (kk, c2, li, hx(ph))) if lang is not None else ('decode %d %d %s' % (kk, c2, hx(ph)))
+                            o3 = self.op(op)
+                            if o3 is None or o3.head == 'skip':
+                                return
+                            if o3.kv('st') == '0':
+                                self.slots[kk] = dict(b=0, f=0, secret=bytes(32), chk=0, block=o3.kv('seed'))
+                                self.dump(kk)
+                                self.free(kk)
+                            else:
+                                a = [e for e in o3.events if e.startswith('E alloc') and 'ret=b' in e]
+                                fr = [e for e in o3.events if e.startswith('E free')]
+                                if len(a) != len(fr):
+                                    self.report('C15', 'decode-leak', 'a failing decode (status %s) into a variable that still held the address of a freed seed allocated %d block(s) and freed %d' % (o3.kv('st'), len(a), len(fr)))
+        finally:
+            self.s.directive('!reuse 0')
 
     def probe_unsupported(self):
         """C10: seeds with reserved bits at the three readers"""
@@ -1150,6 +1238,21 @@ class ApiGen:
                 self.free(k)
         self.inject()
 
+    def probe_create_edges(self):
+        """once per history: creation with feature arguments whose HIGH bits are set (only the three low bits may matter), each
+        seed then sent through phrase and storage and its KDF inputs compared along the way"""
+        r = self.rnd
+        for hi in (0x40, 0x20, 0xFFFFFF00, r.randrange(1, 2 ** 27) << 5):
+            k = self.create(feat=(self.mask & 7) | hi)
+            if k is None:
+                continue
+            self.busy = {k}
+            self.probe_roundtrip(k)
+            if k in self.slots:
+                self.probe_storage(k)
+            if k in self.slots:
+                self.free(k)
+
     # ------------------------------------------------------------ driver
     def run(self, nops, weights):
         r = self.rnd
@@ -1159,6 +1262,7 @@ class ApiGen:
         weights = dict(weights)
         if weights.pop('clocks', 0):
             self.probe_clocks()
+        self.probe_create_edges()
         names = list(weights)
         ws = [weights[n] for n in names]
         while len(self.s.ops) < nops and not self.s.crashed:
